@@ -43,6 +43,8 @@ PROPS = {
     # decoder's result on a cross-version read is, by C07_cross_version, what the property requires
     'C07': dict(engine='pair', pool='x', modes=['xver'], witness=True, values=(5, 40)),
     'C08': dict(engine='pair', pool='x', modes=['frame'], witness=False, values=(8, 80)),
+    # the model's relation is the trait (fung lines: any disagreement is a wrong trait value on that pair)
+    'C09': dict(engine='pair', pool='f', modes=['fung'], witness=False, witness_ops=['fung'], values=(4, 40)),
     'C15': dict(witness=False, stages=[
         dict(engine='codec', pool='h', modes=['handles'], values=(6, 60), witness_ops=['enc']),
         dict(engine='single', name='life', source='life_main.cpp', runs=[['--mode', 'uh']])]),
@@ -298,7 +300,12 @@ class Run:
         for (k, v) in self.known_hits:
             if k['key'] not in seen:
                 seen.add(k['key'])
-                print('KNOWN-FINDING: property=%s %s' % (self.pid, k['what']))
+                print('KNOWN-FINDING: property=%s %s (reproduced in this run)' % (self.pid, k['what']))
+        # listed findings whose inputs the generators deliberately leave out are still announced
+        for k in load_known():
+            if k.get('property') == self.pid and k.get('status') == 'known' and k['key'] not in seen:
+                seen.add(k['key'])
+                print('KNOWN-FINDING: property=%s %s (listed; its inputs are excluded from generation: %s)' % (self.pid, k['what'], k.get('note', '')))
         rc = 0
         if self.violations:
             rc = 1
